@@ -1776,6 +1776,7 @@ def h_list_clear():
     cells = {0: (Ptr(vt.obj, 16), 8), 8: (Ptr('lb', 0), 8), 16: (Ptr('ctrl', 0), 8), fo[1]: (BV(8), 8), fo[1] + 8: (z3.FPVal(1.5, z3.Float64()), 8),
              fo[3]: (Ptr('content', 0), 8), fo[3] + 8: (NULL, 8), fo[4]: (begun, 1)}
     a0 = _growable(m, 'offsets', n, res, fo[2], cells, 'lb')
+    m.assume(z3.Select(a0, BV(0)) == 0)            # representation invariant: the first offset is 0
     this = m.record('lb', cells)
     out = m.call('_ZN7awkward11ListBuilder5clearEv', [this])
     a1 = m.mem.o['offsets'].arr
